@@ -380,7 +380,10 @@ class HedTag:
 
         if stripped_value:
             if unit_entry.get_conversion_factor(unit) is not None:
-                return float(stripped_value) * unit_entry.get_conversion_factor(unit)
+                try:
+                    return float(stripped_value) * unit_entry.get_conversion_factor(unit)
+                except ValueError:
+                    return None  # Not a number: the value is absent rather than an exception.
 
     @property
     def unit_classes(self):
